@@ -75,6 +75,8 @@ ELEMS = ["R", "C", "L", "Q", "W"]
 # frozen tolerances (calibration: see the report in evidence.coverage.worst_observed)
 TOL_CP = 1e-2  # total deviation; floor = termination of lmfit's offset fit, measured <= 4.1e-6*|ln|Z(f_max)|| <= 1.6e-4
 TOL_CP_SHAPE = 1e-6  # spread of ln(|Z_fit|/|Z|) over the points (the part that does not depend on the offset fit)
+LADDER_MEDIAN_MAX = 0.025  # aggregate: median over all ladder cases of a run (observed 0.0127-0.0139)
+LADDER_P95_MAX = 0.055     # aggregate: 95th percentile (observed 0.030-0.032)
 TOL_LADDER = 0.08  # observed <= 0.040 inside the generator domain (= intrinsic error of the two-term series); mutants >= 0.2
 TOL_SCALE_CP = 1e-2  # two independent offset fits, each within the cp floor
 TOL_SCALE_LADDER = 1e-2  # same floor (two offset fits); observed <= 2.5e-5
@@ -896,4 +898,14 @@ def finalize(agg):
     info = {}
     if devs:
         info = {"ladder_cases": len(devs), "ladder_median_dev": devs[len(devs) // 2], "ladder_p95_dev": devs[int(0.95 * (len(devs) - 1))], "ladder_max_dev": devs[-1]}
-    return {"viol": [], "inconclusive": inc, "info": info}
+    # aggregate ladder clause: the per-case bound TOL_LADDER is a method-accuracy bound (intrinsic error of the two-term
+    # series ~4 %); a systematic shift of a few percent (e.g. a wrong |gamma| that is not a sign flip) shows in the
+    # distribution instead.  Observed on the unchanged tree over 3 quick seeds (160 ladder cases each): median
+    # 0.0127-0.0139, 95th percentile 0.030-0.032.
+    viol = []
+    if len(devs) >= 100:
+        if info["ladder_median_dev"] > LADDER_MEDIAN_MAX or info["ladder_p95_dev"] > LADDER_P95_MAX:
+            viol.append({"key": "C11/ladder-modulus-distribution",
+                         "msg": f"over {len(devs)} ladder cases the median deviation is {info['ladder_median_dev']:.4f} (allowed {LADDER_MEDIAN_MAX}) and the "
+                                f"95th percentile {info['ladder_p95_dev']:.4f} (allowed {LADDER_P95_MAX})", "witness": info})
+    return {"viol": viol, "inconclusive": inc, "info": info}
